@@ -38,7 +38,7 @@ def gen_world(rng):
     nf = rng.choice([1, 2, 3])
     fs = [{"A": [[rng.randint(-2, 2) for _ in range(3)] for _ in range(3)], "b": rvec(rng)} for _ in range(nf)]
     objs = []
-    leaves = ["S"] * rng.choice([0, 1, 1, 2, 2, 3]) + ["K"] * rng.choice([0, 1, 1, 2, 2, 3])
+    leaves = ["S"] * rng.choice([0, 1, 1, 2, 2, 3]) + ["K"] * rng.choice([0, 1, 1, 2, 2, 3, 4])
     rng.shuffle(leaves)
     for t in leaves:
         if t == "S":
